@@ -3,7 +3,9 @@
 EXTENDS PathDefs
 
 CONSTANTS MaxComps
-Names == UNION { [1..n -> Comps] : n \in 0..MaxComps }
+(* every name of <= MaxComps components, plus every name of 3 components over the components that walk up and sideways *)
+CoreComps == {"..", "rootx", "a.txt", "sub", "dlink_out"}
+Names == UNION { [1..n -> Comps] : n \in 0..MaxComps } \cup [1..3 -> CoreComps]
 
 VARIABLES req, ans
 vars == <<req, ans>>
@@ -30,6 +32,8 @@ UpwardsNeverResolves == (ans # "pending" /\ \E i \in 1..Len(req.cs) : req.cs[i] 
 (* an absolute name that points INTO the search path may also be answered with that inside file: the statement only *)
 (* forbids content from outside (the file-system loader answers NotFound, which is what `Outcome` says)             *)
 AlsoAdmissible == IF req.prefix = "abs_root" THEN Outcome("rel", req.cs, req.ext, req.reject) ELSE ans
+(* a name that walks upwards may be refused (as the reference mechanism does) or resolved - but then only to a file INSIDE the search path *)
+UpwardsAdmissible == IF \E i \in 1..Len(req.cs) : req.cs[i] = ".." THEN InsideContents ELSE {}
 Emit == ans # "pending" => PrintT(ToJson([prefix |-> req.prefix, cs |-> req.cs, ext |-> req.ext, reject |-> req.reject,
-                                          expect |-> ans, also |-> AlsoAdmissible]))
+                                          expect |-> ans, also |-> AlsoAdmissible, upwards |-> UpwardsAdmissible]))
 =============================================================================
